@@ -291,6 +291,9 @@ ConfStep ==
                    /\ \/ Len(ln.obs.ub) > 0
                       \/ /\ HeapMatches(heap, ob, ln.obs)
                          /\ ob.ret = ln.ret
+                         \* the cost counters of the call (hooks in cycle.rs) equal the model's
+                         /\ ln.depth = 0 => /\ ob.ntrace = ln.cnt.ntrace /\ ob.npop = ln.cnt.npop
+                                            /\ ob.nvisit = ln.cnt.nvisit /\ ob.nmember = ln.cnt.nmember
                 [] ln.k = "dtor" ->
                    /\ StepValueEnter /\ Top.o = ln.a
                    /\ HeapMatches(heap', ob', ln.obs)
